@@ -285,9 +285,12 @@ def run(ctx):
         meta.append(("direct", c, r))
         nz = (not rejected) and (r["summed"] != 0 or any(v != 0 for v in r["milk"]))
         ctx.count(("direct", json.dumps(c, sort_keys=True)), nontrivial=nz)
-        if not rejected:
+        dyadic = all(abs(v) < 2 ** 30 and v * 64 == int(v * 64) for a in c["herd"] for v in a["slaughter"] + a["population"])
+        if not rejected and dyadic:
+            dist["direct_exact_class_sums"] = dist.get("direct_exact_class_sums", 0) + 1
             terms.append(term_exact(c, r))
             meta.append(("direct", c, r))
+        if not rejected:
             for f in audit_direct_local(c, r):
                 ctx.violation("C05:" + f["kind"] + "@calculate_meat_from_feed_results", f["what"],
                               {"kind": "counterexample", "direct_case": c, "observed": r, "failure": f})
